@@ -174,6 +174,53 @@ def order_check(I, s2, evs, fills, direct, probs, und, what):
                 return
 
 
+# well-formed UTF-8 around a cut: (unit before the one before the cut, unit before the cut, first unit after the cut); None = any
+TORN_WINDOWS = [((None, 0xC3, 0xA9), 'U+00E9 (C3|A9)'), ((0xE2, 0x82, 0xAC), 'U+20AC (E2 82|AC)'), ((0xF0, 0x9F, 0x98), 'U+1F600 (F0 9F|98 80)')]
+
+
+def torn_piece(I, s2, N):
+    """R17.6: a writer that transcodes its text in pieces must cut between characters.  For the conversion call of this iteration
+    (pointer into the data of the call, piece length): if the path admits a well-formed text whose multi-byte character straddles
+    the end of the piece while text remains behind it, the piece ends inside a character and the converted output differs from the
+    conversion of the whole.  Returns the finding text with its witness, or None."""
+    convs = [e for e in s2.events if e[0] == 'conv']
+    if len(convs) != 1:
+        return None
+    cargs = convs[0][3]
+    if not (isinstance(cargs[0], PtrV) and cargs[0].obj == 'DATA' and isinstance(cargs[1], IntV)):
+        return None
+    piece = I.as_u(s2, cargs[1])
+    cut = cargs[0].off + piece
+    if s2.is_ge0(cut - N) is True:
+        return None                     # the piece runs to the end of the text: no cut
+    for (win, label) in TORN_WINDOWS:
+        s3 = s2.clone()
+        if not s3.assume_ge0(N - cut - 1) or not s3.assume_ge0(cut - 3):
+            continue
+        terms = []
+        ok = True
+        for k, want in zip((-2, -1, 0), win):
+            if want is None:
+                continue
+            v = I.load(s3, None, PtrV('DATA', cut + k), 'i8', 1)
+            if not isinstance(v, IntV):
+                ok = False
+                break
+            u = I.as_u(s3, v)
+            if u is None or not s3.assume_eq0(u - want):
+                ok = False
+                break
+            terms.append(u)
+        if not ok:
+            continue
+        env = s3.find_model(terms + [N - cut], lambda vals: vals[-1] >= 1)
+        if env is not None:
+            return ('converts the text in pieces and ends a piece of %r byte(s) inside a character: a well-formed text with %s across the cut takes '
+                    'this path, so the stream receives the conversion of two torn halves instead of the character; witness %s' %
+                    (piece, label, own.fmt_env(env)))
+    return None
+
+
 def appends(run, m, F, E):
     n = 0
     for name in F.lib:
@@ -202,6 +249,11 @@ def appends(run, m, F, E):
             if o.kind in ('ret', 'backedge'):
                 order_check(I, s2, s2.events, fills, lambda e: any(isinstance(x, PtrV) and x.obj == 'DATA' for x in e[3]), probs, und, 'append')
             if o.kind == 'backedge':
+                if elt != 'char':
+                    torn = torn_piece(I, s2, N)
+                    if torn:
+                        probs.append(torn)
+                        continue
                 und.append('hands the bytes over in a loop: not one of the recognised idioms')
                 continue
             if o.kind == 'throw':
